@@ -280,6 +280,10 @@ Prop(pp, x, own, viaDep, sure) ==
 \* guard), so only the first failure of a guard-free program is `sure` to carry its own code.
 AnyGuard == \E t \in DOMAIN Prog.tasks : T(t).guard \notin {"none", "uptodate", "platform"}
 
+\* a caller that shares a deduplicated execution observes that execution's outcome, which may be
+\* "cancelled" (not an exit status) when the failure happened next to the first caller
+HasDedup == \E t \in DOMAIN Prog.tasks : T(t).run # "always"
+
 MergeDead(old, new) ==
   [pp \in DOMAIN old \cup DOMAIN new |->
      IF pp \in DOMAIN old /\ pp \in DOMAIN new THEN [old[pp] EXCEPT !.xs = @ \cup new[pp].xs]
@@ -315,7 +319,7 @@ RetViol(r) ==
   (IF RootDead # {} /\ r.code = 0 THEN {Viol("C03", "failure-lost")} ELSE {})
   \cup
   (IF RootDead # {} /\ r.code # 0 /\ ~AnyGuard /\
-      ~(r.code = 201 /\ (r.xcode \in UNION {dead[p].xs : p \in RootDead} \/ (r.xcode = 201 /\ \E p \in DOMAIN dead : ~dead[p].sure)))
+      ~(r.code = 201 /\ (r.xcode \in UNION {dead[p].xs : p \in RootDead} \/ (r.xcode = 201 /\ (HasDedup \/ \E p \in DOMAIN dead : ~dead[p].sure))))
    THEN {Viol("C03", IF \A p \in RootDead : dead[p].viaDep THEN "status-of-dep-failure" ELSE "status")} ELSE {})
   \cup
   (IF DOMAIN dead = {} /\ ~AnyGuard /\ r.code # 0 /\ r.code # 204 THEN {Viol("C03", "spurious-error")} ELSE {})
